@@ -15,23 +15,37 @@ def run(prop, tier, seed):
     wd = vlib.workdir(prop)
     cases, info, par = frontlib.generate(prop, tier, seed, wd)
     hcases, dropped = frontlib.to_harness(cases, {"mode": "both"})
-    obs, hwall = vlib.run_harness(hcases, wd, jobs=14, timeout=10)
+    obs, hwall = vlib.run_harness(hcases, wd, jobs=frontlib.JOBS, timeout=10)
 
-    # a worker that died (abort / time limit) took the whole case with it: confirm it in a second run, and run `check`
-    # alone to see which API it was
-    confirmed, flaky, second, w2 = frontlib.confirm_crashes(hcases, obs, wd, ("check", "compile"), ("check",))
-    hwall += w2
-    solo = {k[:-6]: o for k, o in second.items() if k.endswith("#check")}
+    # a worker that died (abort / time limit) took the whole case with it: it is believed only if it reproduces, and the
+    # second run tells which API it was: `check` alone first, `compile_bytecode` alone for those where check returns
+    crashed = [i for i, o in enumerate(obs) if o.get("check") in ("abort", "timeout") or o.get("compile") in ("abort", "timeout")]
+    confirmed = flaky = 0
+    if crashed:
+        o1, w1 = vlib.run_harness([dict(hcases[i], mode="check") for i in crashed], wd, name="confirm_check",
+                                  jobs=min(frontlib.JOBS, len(crashed)), timeout=10)
+        hwall += w1
+        rest = []
+        for i, o in zip(crashed, o1):
+            if o.get("check") in ("ok", "diag"):
+                rest.append((i, o))
+            else:
+                confirmed += 1
+                obs[i] = dict(o, compile=o.get("check"))       # compile_bytecode runs the same analysis first
+        if rest:
+            o2, w2 = vlib.run_harness([dict(hcases[i], mode="compile") for i, _ in rest], wd, name="confirm_compile",
+                                      jobs=min(frontlib.JOBS, len(rest)), timeout=10)
+            hwall += w2
+            for (i, oc), o in zip(rest, o2):
+                if o.get("compile") in ("ok", "diag"):
+                    flaky += 1            # did not reproduce: machine load, not a finding
+                else:
+                    confirmed += 1
+                obs[i] = dict(o, check=oc.get("check"), check_text=oc.get("check_text"))
 
     rows = []
     for c, o in zip(hcases, obs):
         chk, cmp_ = o.get("check"), o.get("compile")
-        if c["id"] in solo and solo[c["id"]].get("check") in ("ok", "diag"):
-            # check alone returns: compile_bytecode is the call that did not
-            o["check_text"] = solo[c["id"]].get("check_text")
-            chk = o["check"] = solo[c["id"]]["check"]
-        elif chk == "panic" and cmp_ is None:
-            cmp_ = "panic"
         row = {"id": c["id"], "check": chk or "none", "compile": cmp_ or "none",
                "ctext": bool((o.get("check_text") or "").strip()), "dtext": bool((o.get("diag_text") or "").strip()),
                "csite": frontlib._site(o.get("check_panic_loc"), o.get("check_panic")) if chk == "panic" else "",
